@@ -765,16 +765,26 @@ def perform(H, mut):
                         r["dead"] = True
                 ctx.count("reads_dropped_view_of_old_shape")
         if expect_raise:
-            # fault sequence: the call must fail; whatever it left behind is the current data (read back through the
-            # public API), and every later read has to agree with a twin holding exactly that
+            # fault sequence: the call must fail and must change nothing - no column replaced, no message sent - so
+            # every read has to agree with a twin of the state before the call (the model is left as it was)
+            seen = []
+            if H.probe is not None:
+                H.probe.mid = lambda msgname: seen.append(msgname)
+            failed = True
             try:
                 call()
+                failed = False
                 ctx.count("expected_failure_did_not_fail:update_components")
             except Exception as e:
                 ctx.count("mutation_failed_as_intended:" + type(e).__name__)
-            for c in m.comps:
-                if c[1] != "cat":
-                    c[2] = np.array(d[d.id[c[0]]])
+            if H.probe is not None:
+                H.probe.mid = None
+            if not failed:          # the wrong-shaped entry was overwritten by a good one for the same column
+                for n, a in new.items():
+                    m.set(n, a)
+            elif seen:
+                ctx.violation({"kind": "message_from_failed_mutation", "mutation": mut["kind"], "message": seen[0]},
+                              {"messages": seen, "history": describe_history(H)})
             try:
                 twin = twin_of(H)
             except Exception as e:
@@ -1607,7 +1617,7 @@ def floors(c, tier):
             "indices": 25, "hist:update_components": 12, "hist:viewer_setting": 20, "hist:subset_replace": 4,
             "prof:update_components": 15, "prof:viewer_setting": 15, "prof:subset_replace": 4,
             # classes of the adversarial widening round
-            "add_component_existing_cid": 4, "update_components_raised": 4, "variant:near_equal_values": 4,
+            "add_component_existing_cid": 4, "variant:near_equal_values": 4,
             "variant:reentrant_update": 6}
     for k, n in need.items():
         got = c.get("post_mutation_rereads_truth_changed:" + k, 0)
@@ -1620,6 +1630,10 @@ def floors(c, tier):
     for k, n in kinds.items():
         if c.get("truth_changed_kind:" + k, 0) < n:
             out.append("fewer than %d changed-truth re-reads of kind %s (%d)" % (n, k, c.get("truth_changed_kind:" + k, 0)))
+    # a failed update_components must change nothing: what counts is how many reads were compared after one
+    if c.get("post_mutation_rereads:update_components_raised", 0) < 40:
+        out.append("fewer than 40 reads compared after an update_components call that failed (%d)"
+                   % c.get("post_mutation_rereads:update_components_raised", 0))
     for fl in ("state:table", "state:cube", "state:linked", "state:aligned", "pressure", "indexed", "hist", "prof"):
         if c.get("histories:" + fl, 0) < 5:
             out.append("fewer than 5 histories of family %s" % fl)
